@@ -16,6 +16,7 @@ func ruleC16(prog *Program, rep *Report) {
 	ruleFieldLoopBounds(prog, rep, []string{"alt", "oj", "sen"})
 	ruleFreshTarget(prog, rep)
 	ruleFloatBits(prog, rep)
+	ruleAppendRetain(prog, rep, "alt")
 }
 
 // derivedFromName: does e contain (or is it a local assigned from an expression
